@@ -288,6 +288,11 @@ Proof.
   assert (H2 : 2 <= INR n) by (rewrite <- INR_2; apply le_INR, Hn). simpl INR. field. lra.
 Qed.
 
+(* the NumPy grid step size/(no - 1) has a vanishing denominator for a single row or column: the
+   lattice theorems above need at least 2 points per axis (open finding C14-numpy-grid-single) *)
+Lemma grid_single_refuted : exists n, (1 <= n)%nat /\ INR n - 1 = 0.
+Proof. exists 1%nat. split; [lia | simpl; lra]. Qed.
+
 Lemma box_coord_bounds s n i : 0 <= s -> (1 <= n)%nat -> (i < n)%nat -> - (s / 2) <= box_coord s n i <= s / 2.
 Proof.
   intros Hs Hn Hi. unfold box_coord.
